@@ -43,3 +43,13 @@ Definition strahler (greedy : bool) (ign : list Z) (t : table) (n : Z) : Z :=
   end.
 Definition strahler_all (greedy : bool) (ign : list Z) (t : table) : list (Z * Z) :=
   map (fun i => (i, strahler greedy ign t i)) (ids t).
+
+(* min_twig_size = k: leaves whose twig (leaf .. the branching node it hangs off, inclusive) has fewer than k nodes are treated as
+   ignored.  An unbranched fragment is not a twig - it hangs off nothing - and keeps its index. *)
+Definition short_twig_leaves (t : table) (k : nat) : list Z :=
+  map rid (filter (fun r => match twig_walk t (anc t (rid r)) with
+                            | Some tw => Nat.ltb (S (length tw)) k
+                            | None => false
+                            end) (leaf_rows t)).
+Definition strahler_all_mts (greedy : bool) (ign : list Z) (k : nat) (t : table) : list (Z * Z) :=
+  strahler_all greedy (ign ++ short_twig_leaves t k) t.
